@@ -37,7 +37,7 @@ XName == <<"x1", "x2", "x3">>     \* loop variables
 KName == <<"k1", "k2", "k3">>     \* loop index / key variables
 AName == <<"a1", "a2", "a3">>     \* array variables
 WName == <<"w1", "w2", "w3">>
-FName == <<"f1", "f2", "f3">>     \* user-defined functions
+FnName == <<"f1", "f2", "f3">>    \* user-defined functions
 
 ArrLit(ns) == <<"arr", [i \in 1..Len(ns) |-> LitI(ns[i])]>>
 \* "héy" = 104 233 121
@@ -51,7 +51,7 @@ NKinds == 41
 \* The construct of kind k in slot j (base call number n = 100 * j) around body block B.
 MkC(k, j, BODY, c, d) ==
   LET n == 100 * j  i == IName[j]  x == XName[j]
-      kk == KName[j]  a == AName[j]  w == WName[j]  f == FName[j] IN
+      kk == KName[j]  a == AName[j]  w == WName[j]  f == FnName[j] IN
   CASE k = 1  -> <<T(n), If(c, <<T(n + 1)>> \o BODY \o <<T(n + 2)>>), T(n + 3)>>
     [] k = 2  -> <<T(n), IfElse(c, <<T(n + 1)>> \o BODY, <<T(n + 2)>>), T(n + 3)>>
     [] k = 3  -> <<T(n), IfElse(c, <<T(n + 1)>>, <<IfElse(d, <<T(n + 2)>> \o BODY, <<T(n + 4)>>)>>), T(n + 3)>>
